@@ -333,6 +333,8 @@ def merge_values(c, a, b):
         return None
     if isinstance(a, str) and isinstance(b, str) and a == b:
         return a
+    if type(a).__name__ == "PyList" and type(b).__name__ == "PyList" and len(a.items) == len(b.items):
+        return type(a)([merge_values(c, x, y) for x, y in zip(a.items, b.items)])
     if hasattr(a, "pvc_merge"):
         r = a.pvc_merge(c, b)
         if r is not NotImplemented:
